@@ -1634,12 +1634,16 @@ class StarterModel(Starter):
         """
         while self.event_list:
             process, identifier, state = self.event_list.pop(0)
-            if state == ProcessStates.STARTING:
-                # from now on, the process load is not counted in the pending requests anymore
+            if state in (ProcessStates.STARTING, ProcessStates.EXITED):
                 application_job = self.current_jobs.get(process.application_name)
                 if application_job:
                     started_load_map = application_job.started_load_map
-                    started_load_map[identifier] = started_load_map.get(identifier, 0) + process.rules.expected_load
+                    load = process.rules.expected_load
+                    if state == ProcessStates.EXITED:
+                        # a wait_exit process that has exited does not load its Supvisors instance anymore
+                        load = -load
+                    # from STARTING on, the process load is not counted in the pending requests anymore
+                    started_load_map[identifier] = started_load_map.get(identifier, 0) + load
             process._state = state
             process.info_map[identifier]['state'] = state
             self.on_event(process, identifier)
